@@ -62,6 +62,15 @@ def fixed_cases(tier):
         n = len(spec["variants"])
         out.append({"spec": spec, "base": S.simple_config([]), "seed": 2,
                     "triples": [[a, b, ["l", "collect"]] for a in range(n) for b in range(n) if a in (0, 1, 2, n - 1) or b in (0, 5, n - 2, n - 1) or a == b]})
+    # tied-run matrix (several runs tied for the greatest length; first == last == average with uneven middle runs)
+    for spec in C.tied_run_specs():
+        n = len(spec["variants"])
+        if n <= 16:
+            tr = [[a, b, ["l", "collect"]] for a in range(n) for b in range(n)]
+        else:
+            pts = sorted({0, 1, 2, 3, 4, 5, 6, n // 2, n // 2 + 1, n - 3, n - 2, n - 1})
+            tr = [[a, b, ["l", "collect"]] for a in pts for b in pts]
+        out.append({"spec": spec, "base": S.simple_config([]), "seed": 3, "triples": tr})
     # run-length matrix: end points at the run boundaries
     for spec in C.run_length_specs({(1, 64), (63, 64), (64, 64), (65, 64), (64, 1), (65, 65), (127, 128), (128, 128), (129, 63), (255, 1), (256, 63), (257, 65), (2, 128)}):
         vals = [int(v["disc"]) for v in spec["variants"]]
